@@ -61,6 +61,7 @@ Definition judge_cfg (P : pda) (oG : option cfg) (model : option cfg) (unchanged
                          | _, _ => 1
                          end
                        else 0
+                     else if negb deep then 1     (* structure differs (naming order of the intermediate states); the language oracle is only run on the small `deep` cases *)
                      else match cfg_words (fun l => l) stream G n, pda_words pick_head P LIM n with
                           | Some L1, (L2, false) => if seteqb L1 L2 then 1 else 44
                           | _, _ => 1
